@@ -59,35 +59,47 @@ def isEOF : List Tok → Bool
 /-- `isEndOfBlock`: the current token is left of the block's column, or the input ends -/
 def isEndOfBlock (top : Nat) (ts : List Tok) : Bool := curCol ts < top || isEOF ts
 
+/-- result of a parser: a value and the remaining tokens, a rejection (the real parser panics with a
+diagnostic), or the model's fuel ran out (Props/C16Block.lean: it never does when the fuel is at
+least `3 * tokens + 3`) -/
+inductive R (α : Type) where
+  | ok (a : α) (rest : List Tok)
+  | reject
+  | fuel
+deriving Repr
+
 mutual
 /-- `parseStmt`: words, then possibly an opener, `psSkipEOL` and a block -/
-def pStmt : Nat → Nat → List Tok → Option (T × List Tok)
-  | 0, _, _ => none
+def pStmt : Nat → Nat → List Tok → R T
+  | 0, _, _ => .fuel
   | f + 1, top, ts =>
     match (takeWords ts).2 with
     | ⟨.opener, _⟩ :: r' =>
       match pBlock f top (skipEOL r') with
-      | some (body, r'') => some (.opn (takeWords ts).1 body, r'')
-      | none => none
-    | r => if (takeWords ts).1.isEmpty then none else some (.line (takeWords ts).1, r)
+      | .ok body r'' => .ok (.opn (takeWords ts).1 body) r''
+      | .reject => .reject
+      | .fuel => .fuel
+    | r => if (takeWords ts).1.isEmpty then .reject else .ok (.line (takeWords ts).1) r
 /-- `parseBlock`: `psPushOffside` ("Overrun offside rule" unless the block starts right of the
 enclosing one), the statement list, `psPopOffside` -/
-def pBlock : Nat → Nat → List Tok → Option (List T × List Tok)
-  | 0, _, _ => none
+def pBlock : Nat → Nat → List Tok → R (List T)
+  | 0, _, _ => .fuel
   | f + 1, top, ts =>
-    if top ≥ curCol ts then none
+    if top ≥ curCol ts then .reject
     else pList f (curCol ts) ts
 /-- `parseStmtList` = `ParseList2 (parseStmt |> psSkipEOL) isEndOfBlock` -/
-def pList : Nat → Nat → List Tok → Option (List T × List Tok)
-  | 0, _, _ => none
+def pList : Nat → Nat → List Tok → R (List T)
+  | 0, _, _ => .fuel
   | f + 1, top, ts =>
     match pStmt f top ts with
-    | none => none
-    | some (s, r) =>
-      if isEndOfBlock top (skipEOL r) then some ([s], skipEOL r)
+    | .reject => .reject
+    | .fuel => .fuel
+    | .ok s r =>
+      if isEndOfBlock top (skipEOL r) then .ok [s] (skipEOL r)
       else match pList f top (skipEOL r) with
-        | some (ss, r'') => some (s :: ss, r'')
-        | none => none
+        | .ok ss r'' => .ok (s :: ss) r''
+        | .reject => .reject
+        | .fuel => .fuel
 end
 
 /-! ### layouts -/
